@@ -309,7 +309,33 @@ def r4_nil_below_everything(ctx):
         ctx.ob("C17.R4", inst, RT, fn.lineno, ok, why, witness="(compare 1.5M nil) raises TypeError")
 
 
-_LT_GOOD = "        return self._ns < other._ns or self._name < other._name"
+@rule("C17.R5", floor=4)
+def r5_no_lossy_conversion_no_rewrapped_keys(ctx):
+    """compare never converts an operand before comparing it (float(x) / int(x) of a Decimal or
+    ratio rounds, so compare could answer 0 for unequal values and lose antisymmetry): mixed
+    Decimal/float pairs are answered by negating the float arm with the operands swapped. sort /
+    sort_by use the caller's key function and comparator as given (no memoising wrapper keyed by
+    element equality: equal elements may carry different keys)."""
+    reg = _compare_fn(ctx)
+    for key, fn in sorted(reg.items()):
+        params = {a.arg for a in fn.args.args}
+        conv = [c for c in P.calls(fn) if P.un(c.func) in ("float", "int", "round", "decimal.Decimal", "Fraction", "str") and c.args and P.names_read(c.args[0]) & params]
+        ctx.ob("C17.R5", f"{RT}::compare[{key}]::operands compared unconverted", RT, fn.lineno, not conv,
+               "" if not conv else f"`{P.un(conv[0])}` converts an operand before comparing: (compare 0.1M 0.1) can be 0 although the values differ, and compare(x, y) is no longer -compare(y, x)")
+    dec = reg.get("decimal.Decimal")
+    if dec is not None:
+        ok = any(P.un(r.value) == "-compare(y, x)" for r in ast.walk(dec) if isinstance(r, ast.Return) and r.value is not None)
+        ctx.ob("C17.R5", f"{RT}::compare[decimal.Decimal]::float operand answered by -compare(y, x)", RT, dec.lineno, ok, "" if ok else "the Decimal/float case is not the negation of the float/Decimal case: antisymmetry is not by construction")
+    tree = ctx.py(RT)
+    for fname in ("sort", "sort_by"):
+        fn = P.find_def(tree, fname)
+        params = {a.arg for a in fn.args.args}
+        re_as = [a for a in P.walk_local(fn) if isinstance(a, (ast.Assign, ast.AugAssign)) for t in P.store_targets(a) if isinstance(t, ast.Name) and t.id in params and t.id != "coll"]
+        ctx.ob("C17.R5", f"{RT}::{fname}::key function and comparator used as given", RT, fn.lineno, not re_as,
+               "" if not re_as else f"`{P.un(re_as[0])}` replaces a caller-supplied function: a cache keyed by element equality gives equal elements with different keys the same key")
+
+
+_LT_GOOD ="        return self._ns < other._ns or self._name < other._name"
 
 SELFTEST = [
     {"name": "keyword: or-chain (the repaired defect)", "file": KW, "expect": "C17.R1",
